@@ -525,6 +525,8 @@ def step_bwd(s, op, checks, case):
             raise Violation("scan_regenerate_backward", f"backward request of Regenerate through scan cannot be applied: NotImplementedError {e}", case)
         raise
     except Exception as e:
+        if isinstance(e, IndexError) and "size 0" in str(e) and gfi.has_zero_length(s.node):
+            raise Violation("vmap_zero_length_backward", f"applying the backward request of an update on a zero-length vmap raised IndexError: {e}"[:400], case)
         if nonzero_branch:
             raise Violation("switch_backward_is_branch0", f"applying the backward request of a program that executes a switch branch != 0 raised {type(e).__name__}: {e}"[:600], case)
         raise
